@@ -1,5 +1,76 @@
-(** C19 placeholder; replaced below. *)
-From Yarl Require Import Model.Url.
-Example C19_sanity : nonempty [1%N] = true.
-Proof. reflexivity. Qed.
-Print Assumptions C19_sanity.
+(** C19 - failures are reported only as ValueError/TypeError; nothing crashes.
+    Statements only. *)
+From Yarl Require Import Base.PyStr Model.Url Model.Prog Preds.Obs Preds.PMisc Proofs.TotalProofs.
+
+(** Every constructor (URL(s), URL(s, encoded=True), URL.build(...)) - for every string
+    and every argument combination of the documented types, whatever the external
+    libraries (idna, ipaddress, unicodedata) answer - returns or fails with ValueError or
+    TypeError. *)
+Theorem C19_constructors : forall (O : oracles) (B : backend) (c : ctor), ok_vt (run_ctor O B c).
+Proof. exact run_ctor_vt. Qed.
+Print Assumptions C19_constructors.
+
+(** Every modifier (with_scheme/user/password/host/port/path/query/fragment/name/suffix,
+    extend_query, update_query, without_query_params, parent, joinpath, /, origin,
+    relative, unpickling) on every URL value - reachable or encoded=True garbage. *)
+Theorem C19_modifiers : forall (O : oracles) (B : backend) (u : url) (o : op), ok_vt (run_op O B u o).
+Proof. exact run_op_vt. Qed.
+Print Assumptions C19_modifiers.
+
+(** Every operation sequence (all lengths): constructors, modifiers and join in any order. *)
+Theorem C19_programs : forall (O : oracles) (B : backend) (p : list instr),
+  stack_ok p 0 = true -> ok_vt (run_prog O B p []).
+Proof. intros O B p H. now apply (run_prog_vt O B p []). Qed.
+Print Assumptions C19_programs.
+
+(** Every accessor of every URL value (36 observed accessors, str() and bytes() included)
+    returns or fails with ValueError/TypeError: the executable predicate of the check
+    holds of the whole observation. *)
+Theorem C19_accessors : forall (O : oracles) (B : backend) (profile : N) (u : url),
+  has_bad_exn (WList (observe O B profile u)) = false.
+Proof. exact observe_no_bad_exn. Qed.
+Print Assumptions C19_accessors.
+
+Theorem C19_pred_holds : forall (O : oracles) (B : backend) (profile : N) (p : list instr),
+  p <> [] -> stack_ok p 0 = true ->
+  c19_pred [WBool false; run_observe O B profile p] = true.
+Proof.
+  intros O B profile p Hp H. unfold c19_pred. rewrite run_observe_no_bad_exn by assumption. reflexivity.
+Qed.
+Print Assumptions C19_pred_holds.
+
+(** "an object that build() or a modifier returned can always be turned into a string":
+    false of the faithful model for the known-finding class F17 (a bracketed host that is
+    not an IPv6 address loses its brackets; the derived object's lazily re-split
+    authority no longer parses).  The witness is evaluated by the kernel; the general
+    statement under the exclusion is validated by the correspondence runs only. *)
+Definition no_oracles : oracles :=
+  mk_oracles (fun s => s) (fun _ => None) (fun _ => None) (fun _ => None) (fun _ => None) (fun _ => None) (fun s => s).
+Theorem C19_str_total_refuted :
+  exists p, stack_ok p 0 = true /\
+    match run_prog no_oracles BPy p [] with
+    | Ok (u :: _) => url_str BPy u = Err ValueError
+    | _ => False
+    end.
+Proof.
+  exists [IPush (CUrl [104;116;116;112;58;47;47;91;118;49;46;97;58;98;93;58;56;47;112]);   (* http://[v1.a:b]:8/p *)
+          IOp (OWithFragment (Some [120]))].
+  split; vm_compute; reflexivity.
+Qed.
+Print Assumptions C19_str_total_refuted.
+
+(** Allocation failure inside the compiled quoter's Writer: for every buffer size, every
+    output and every allocator behaviour (which of the growth / result allocations fail),
+    the call either returns exactly the characters written or raises MemoryError - never a
+    truncated or corrupted string; the data always fits the current block. *)
+From Yarl Require Import Model.Writer Proofs.WriterProofs.
+Theorem C19_oom_all_or_nothing : forall (alloc_ok : nat -> bool) (BUF : N) (out : str),
+  writer_call alloc_ok BUF out = Ok out \/ writer_call alloc_ok BUF out = Err MemoryError.
+Proof. exact writer_call_spec. Qed.
+Print Assumptions C19_oom_all_or_nothing.
+
+Theorem C19_writer_in_bounds : forall (alloc_ok : nat -> bool) (BUF : N) cs w w',
+  (len (w_data w) <= w_size w)%N -> (0 < BUF)%N ->
+  write_all alloc_ok BUF w cs = Ok w' -> (len (w_data w') <= w_size w')%N.
+Proof. exact write_all_fits. Qed.
+Print Assumptions C19_writer_in_bounds.
